@@ -14,6 +14,8 @@ structure SmallH (th : Int × Hist) : Prop where
   sum : th.2.sum < 2 ^ 64
   cnt : th.2.count < 2 ^ 61
   zcnt : th.2.zcount < 2 ^ 61
+  zt : th.2.zt < 2 ^ 64
+  schema : I64 th.2.schema ∧ th.2.schema ≠ customSchema
   pAbs : ∀ v ∈ prefixSums th.2.pB, 0 ≤ v ∧ v < 2 ^ 60
   nAbs : ∀ v ∈ prefixSums th.2.nB, 0 ≤ v ∧ v < 2 ^ 60
 
@@ -136,9 +138,47 @@ theorem chunkOk_of_inv (c : Chunk) (l : List (Int × Hist)) (inv : CInv c l) (hs
     have h0 := hsamples s0 (by simp)
     by_cases hst : s0.sum = staleBits
     · obtain ⟨_, _, p0, n0⟩ := h0.stale hst
-      obtain ⟨e1, e2⟩ := inv.staleFirst s0 hlast hst
+      obtain ⟨e1, e2, _⟩ := inv.staleFirst s0 hlast hst
       simp [p0, n0, e1, e2, countSpans]
     · exact ⟨(h0.live hst).1, (h0.live hst).2.1⟩
+
+/-- the span lists of the chunk's (merged) layout fit the layout encoding -/
+structure SpansEnc (c : Chunk) : Prop where
+  p : ∀ s ∈ c.pSpans, SpanOk s
+  n : ∀ s ∈ c.nSpans, SpanOk s
+  pl : c.pSpans.length < 2 ^ 64
+  nl : c.nSpans.length < 2 ^ 64
+
+/-- the key part of the layout (threshold, schema, no custom bounds) is encodable for every reachable chunk -/
+theorem layoutOk_of_inv (c : Chunk) (l : List (Int × Hist)) (inv : CInv c l) (hsm : ∀ p ∈ l, SmallH p)
+    (hne : c.rev ≠ []) (hsp : SpansEnc c) : LayoutOk (layoutOf c) := by
+  have hrep := All2.reverse inv.rep
+  have hrr : c.rev.reverse ≠ [] := by simpa using hne
+  obtain ⟨s0, ss, hrev⟩ := List.exists_cons_of_ne_nil hrr
+  rw [hrev] at hrep
+  cases hl : l.reverse with
+  | nil => rw [hl] at hrep; exact hrep.elim
+  | cons th0 ths =>
+    rw [hl] at hrep
+    have hmem0 : th0 ∈ l := by
+      have : th0 ∈ l.reverse := by rw [hl]; simp
+      simpa using this
+    have hlast : c.rev.getLast? = some s0 := by
+      have := congrArg List.head? hrev
+      simpa [List.head?_reverse] using this
+    have sm := hsm th0 hmem0
+    cases hst : th0.2.stale with
+    | true =>
+      obtain ⟨_, _, e3, e4, e5⟩ := inv.staleFirst s0 hlast (hrep.1.2.1 hst)
+      exact ⟨by simp [layoutOf, e4], by simp [layoutOf, e4], by simp [layoutOf, e3, I64, two63],
+        by simp [layoutOf, e3, customSchema], by simp [layoutOf, e5], hsp.p, hsp.n, hsp.pl, hsp.nl⟩
+    | false =>
+      obtain ⟨_, ksch, kzt, kcu, _⟩ := key_of_rep c s0 th0 hrep.1 hst
+      have w := inv.wf th0 hmem0 hst
+      refine ⟨by simp only [layoutOf]; rw [kzt]; exact sm.zt, ?_, by simp only [layoutOf]; rw [ksch]; exact sm.schema.1,
+        by simp only [layoutOf]; rw [ksch]; exact sm.schema.2, ?_, hsp.p, hsp.n, hsp.pl, hsp.nl⟩
+      · simp only [layoutOf]; rw [kzt]; exact w.zt
+      · simp only [layoutOf]; rw [kcu]; exact w.customNil sm.schema.2
 
 /-- chunks of a series never hold more than 65535 samples (the appender panics first) and are never empty -/
 theorem runSeries_sizes : ∀ (ops : List ((Int × Hist) × Bool)) (s0 : Series) (gs : List (List (Int × Hist))),
@@ -171,8 +211,8 @@ theorem runSeries_sizes : ∀ (ops : List ((Int × Hist) × Bool)) (s0 : Series)
     histograms, whose (merged) layout is encodable, is decoded from its bytes exactly. -/
 theorem series_bytes_roundtrip (ops : List ((Int × Hist) × Bool)) (s : Series) (hwf : ∀ p ∈ ops, WFs p.1.2)
     (hsm : ∀ p ∈ ops, SmallH p.1) (hrun : runSeries ops Series.empty = .ok s) :
-    ∀ c ∈ s.chunks, LayoutOk (layoutOf c) → decodeChunk (encodeChunk c) = some c := by
-  intro c hc hlay
+    ∀ c ∈ s.chunks, SpansEnc c → decodeChunk (encodeChunk c) = some c := by
+  intro c hc hsp
   obtain ⟨gs, inv, hf, hsz⟩ := runSeries_sizes ops Series.empty [] trivial (by simp) hwf s hrun
   have hc' : c ∈ s.cur.toList ++ s.done := by
     have : c ∈ (s.cur.toList ++ s.done).reverse := hc
@@ -191,7 +231,7 @@ theorem series_bytes_roundtrip (ops : List ((Int × Hist) × Bool)) (s : Series)
     simp only [List.flatten_nil, List.append_nil, List.mem_reverse, List.mem_map] at this
     obtain ⟨q, hq, rfl⟩ := this
     exact hsm q hq
-  obtain ⟨s0, ss, ok⟩ := chunkOk_of_inv c g ci hsmall hne (by omega) hlay
+  obtain ⟨s0, ss, ok⟩ := chunkOk_of_inv c g ci hsmall hne (by omega) (layoutOk_of_inv c g ci hsmall hne hsp)
   exact decodeChunk_encodeChunk c s0 ss ok
 
 end Prom.HistChunk
